@@ -34,7 +34,9 @@ D[p](i), `i` an identifier holding the (Copy) input slice, nK the fresh name of 
   count(p, n)            `while nK_k < n { match D[p](nK_i) { Ok((nK_i1, nK_o)) => { push; nK_i = nK_i1; } Err(Error(e)) => [Err(Error(e))], Err(e) => [Err(e)] } nK_k += 1; }` then Ok((nK_i, nK_res))
   LEAF(args)             `vx_nom_LEAF(args, i)` for char, tag, tag_no_case, one_of, none_of, take   (TRUSTED shim functions declared by the unit)
   LEAF                   `vx_nom_LEAF(i)` for multispace0, multispace1, space0, space1, digit1, i32, i64, u64, u32, double, be_u32, ... (TRUSTED shims)
-  name / a::b::name      `name(i)`: a parser function of the crate (contract from the unit)
+  name / a::b::name      `name(i)`: a parser function of the crate (contract from the unit); a bare name that is a keyword of Verus' expression
+                         syntax (exists, forall, choose) is written as a raw identifier, `r#exists(i)`: the same Rust function, but Verus would
+                         otherwise read `exists(..)` as a quantifier (parser.rs `fn exists`, unit jpexpr)
   |x| BODY               `{ let x = i; BODY }`   (inline closure parser, e.g. `|i| expr_or(i, true)`)
   NAME (a `let NAME = COMB;` local of the function)   D[COMB](i)
 
@@ -64,6 +66,8 @@ LEAF0 = {"multispace0", "multispace1", "space0", "space1", "digit0", "digit1", "
          "i8", "i16", "i32", "i64", "i128", "u8", "u16", "u32", "u64", "u128", "double", "float",
          "be_u8", "be_u16", "be_u32", "be_u64", "be_i32", "be_i64", "le_u32", "le_u64", "eof", "rest"}
 LEAFN = {"char": 1, "tag": 1, "tag_no_case": 1, "one_of": 1, "none_of": 1, "take": 1}
+# crate parser functions whose bare name is a keyword of the Verus expression syntax are called through a raw identifier (`exists(i)` -> `r#exists(i)`)
+VERUS_KW = {"exists", "forall", "choose"}
 COMBS = {"alt", "map", "map_res", "value", "opt", "cond", "not", "pair", "separated_pair", "preceded", "terminated", "delimited",
          "tuple", "separated_list1", "many0", "count"}
 
@@ -228,6 +232,8 @@ class _Gen:
             self.fresh()
             if name in LEAF0:
                 return "vx_nom_%s(%s)" % (name, inp)
+            if len(segs) == 1 and name in VERUS_KW:
+                return "r#%s(%s)" % (name, inp)
             return "%s(%s)" % (self.text(lo, hi), inp)
         # call form PATH ( ARGS )
         if code[hi - 1].text != ")":
